@@ -246,12 +246,20 @@ Section TakeInv.
     - (* error *)
       destruct i_phase0 as (Htb & Hend & [[Hlt Hlow] | [Heq (v0 & rest & Hst & Hlow)]]).
       2: { exfalso. eapply top_sink_not_up; eassumption. }
-      destruct (step_in p c (IDn 0 (DE e)) Hlive Hdel eq_refl) as (Hc & Hs & Hm & Hd).
+      assert (Hh : handle o (IDn 0 (DE e)) (cst c) =
+                   ({| tk_taken := tk_taken (cst c); tk_tb := tk_tb (cst c); tk_end := true |}, [],
+                    ACall (CDn 0 (DE e)) TkDone)).
+      { cbn. now rewrite Hend. }
+      destruct (step_in p c (IDn 0 (DE e)) Hlive Hdel Hh) as (Hc & Hs & Hm & Hd).
       fin' Hc Hm Hs Hd.
     - (* completion *)
       destruct i_phase0 as (Htb & Hend & [[Hlt Hlow] | [Heq (v0 & rest & Hst & Hlow)]]).
       2: { exfalso. eapply top_sink_not_up; eassumption. }
-      destruct (step_in p c (IDn 0 DT) Hlive Hdel eq_refl) as (Hc & Hs & Hm & Hd).
+      assert (Hh : handle o (IDn 0 DT) (cst c) =
+                   ({| tk_taken := tk_taken (cst c); tk_tb := tk_tb (cst c); tk_end := true |}, [],
+                    ACall (CDn 0 DT) TkDone)).
+      { cbn. now rewrite Hend. }
+      destruct (step_in p c (IDn 0 DT) Hlive Hdel Hh) as (Hc & Hs & Hm & Hd).
       fin' Hc Hm Hs Hd.
   Qed.
 
@@ -394,7 +402,7 @@ Section TakeInv.
       + destruct u; cbn -[Nat.ltb] in Hh; split_ifs Hh; inj Hh s' os a; keep IH Htr Hc.
       + cbn in Hh. inj Hh s' os a. keep IH Htr Hc.
       + destruct d as [|v|e|].
-        1, 3, 4: cbn in Hh; inj Hh s' os a; keep IH Htr Hc.
+        1, 3, 4: cbn in Hh; split_ifs Hh; inj Hh s' os a; keep IH Htr Hc.
         (* data *)
         destruct IH as [Hlen Hout]. pose proof (i_le HI) as Hle.
         cbn -[Nat.ltb] in Hh. destruct (tk_taken (cst c) <? max) eqn:Hlt.
